@@ -114,6 +114,7 @@ class FormsLeg(object):
                 "drop": sorted(drop),
                 "falsy": draw(st.sampled_from(sorted(FALSY))),
                 "gz_crlf": draw(st.booleans()),
+                "gz_members": draw(st.booleans()),
             }
 
         return case()
@@ -142,9 +143,17 @@ class FormsLeg(object):
         text = "\n".join(case["directives"] + lines) + "\n"
         path = ctx.write("a.gff", text)
         gz = ctx.path("a.gff.gz")
-        with gzip.open(gz, "wb") as fh:
-            # the compressed copy may use CRLF line ends: still the same annotation
-            fh.write((text.replace("\n", "\r\n") if case.get("gz_crlf") else text).encode("utf-8"))
+        gz_text = text.replace("\n", "\r\n") if case.get("gz_crlf") else text
+        if case.get("gz_members") and len(lines) >= 2:
+            # a gzip file may consist of several members (cat a.gz b.gz, bgzip): still one annotation
+            cut = gz_text.index("\n", len(gz_text) // 2) + 1 if "\n" in gz_text[len(gz_text) // 2:] else len(gz_text)
+            with open(gz, "wb") as fh:
+                fh.write(gzip.compress(gz_text[:cut].encode("utf-8")))
+                fh.write(gzip.compress(gz_text[cut:].encode("utf-8")))
+        else:
+            with gzip.open(gz, "wb") as fh:
+                # the compressed copy may use CRLF line ends: still the same annotation
+                fh.write(gz_text.encode("utf-8"))
         dbkw = {}
         if d["style"] == "gtf":
             dbkw = dict(disable_infer_genes=True, disable_infer_transcripts=True)
@@ -226,6 +235,14 @@ class FormsLeg(object):
                 want_seen = lines if case["transform"] not in ("tag",) else None
                 if want_seen is not None and calls["seen"] != want_seen:
                     return Failure("form %s: transform saw %r" % (form, calls["seen"]), sig={"kind": "transform-args", "form": form})
+            if form == "string" and case["transform"] == "none":
+                # an iterator over a string that has not been consumed yet survives an import of the same text
+                pending = DataIterator(text, checklines=cl, from_string=True)
+                gffutils.create_db(text, ":memory:", checklines=cl, from_string=True, **dbkw)
+                late = [str(f) for f in pending]
+                if late != ref_seq:
+                    return Failure("a string-based DataIterator created before an import of the same text yields %d features afterwards, expected %d"
+                                   % (len(late), len(ref_seq)), sig={"kind": "pending-string-iterator"})
             # ---- import
             calls = {"n": 0, "seen": []}
             t = _make_transform(case["transform"], drop, case["falsy"], calls)
